@@ -39,6 +39,12 @@ def _impl(a):
     return Z.under(zone, now, f)
 
 
+def _fields(row):
+    """id,recurring,days,start,stop,duration,display — a (wrong) duration such as '-1 day, 23:25:00' contains a comma itself"""
+    p = row.split(",")
+    return p[0], p[1], p[2], p[3], p[4], ",".join(p[5:-1]), p[-1]
+
+
 def _judge(a, out):
     if not out.startswith("ok "):
         return [("hhmm 0", "whole-records-must-parse: " + out)] if a.get("recs") is not None else []
@@ -55,7 +61,7 @@ def _judge(a, out):
     tok = Z.zone_token(a["zone"], a["now"])
     lt = datetime.datetime.fromtimestamp(a["now"], ZoneInfo(a["zone"]))
     for row in rows:
-        sid, rec, days, start, stop, dur, disp = row.split(",")
+        sid, rec, days, start, stop, dur, disp = _fields(row)
         r = first[int(sid)]
         lines.append((f"h2l {tok} {r['t1'].to_bytes(4, 'little').hex()}", "ok " + start))
         lines.append((f"h2l {tok} {r['t2'].to_bytes(4, 'little').hex()}", "ok " + stop))
@@ -109,7 +115,7 @@ def _judge_rb(a, out):
     eh, em = int(a["stop"][:2]), int(a["stop"][3:])
     if status != "ok":
         return [("hhmm 0", "listed-record-did-not-parse: " + out)]
-    sid, rec, days, start, stop, dur, disp = rest.split(",")
+    sid, rec, days, start, stop, dur, disp = _fields(rest)
     want_mask = sum(2 ** (d + 1) for d in a["days"])
     lines = [(f"c11exists {tok} {int(a['now'] // 1)} {sh} {sm} {int(t1).to_bytes(4, 'little').hex()} {start}", "1"),
              (f"c11exists {tok} {int(a['now'] // 1)} {eh} {em} {int(t2).to_bytes(4, 'little').hex()} {stop}", "1")]
